@@ -98,7 +98,7 @@ func (s *CollapsingHighestDenseStore) adjust(newMinIndex, newMaxIndex int) {
 	if newMaxIndex-newMinIndex+1 > len(s.bins) {
 		// The range of indices is too wide, buckets of lowest indices need to be collapsed.
 		newMaxIndex = newMinIndex + len(s.bins) - 1
-		if newMaxIndex <= s.minIndex {
+		if newMaxIndex <= s.minIndex || s.IsEmpty() {
 			// There will be only one non-empty bucket.
 			s.bins = make([]float64, len(s.bins))
 			s.offset = newMinIndex
